@@ -685,6 +685,74 @@ func fatalAcceptConfigs(prop string) []sched.Config {
 	return out
 }
 
+// enrollDeadPeerWorld: Register of a connection whose peer has already gone while OnOpen answers
+// with data: the registration succeeds, the OnOpen reply cannot be written. Whatever the engine
+// makes of that, the caller gets exactly one result (a connection or an error) and the channel
+// is closed: no path through the registration may forget the completion.
+func enrollDeadPeerWorld(et bool) *world {
+	w := newWorld("enroll-dead-peer")
+	if et {
+		w.opts = append(w.opts, WithEdgeTriggeredIO(true))
+	}
+	w.onOpen = func(w *world, ci *connInfo) ([]byte, Action) { return []byte("hello"), None }
+	var results []RegisteredResult
+	var regErr error
+	finished, pending := false, false
+	w.script = func(w *world) {
+		sched.Go("user", func() {
+			w.waitBoot()
+			nc, pfd, err := socketpairConn()
+			if err != nil {
+				return
+			}
+			_ = unix.Close(pfd) // the peer is gone before the connection is handed to the engine
+			mcsys.Forget(pfd)
+			ch, err := w.eng.Register(NewNetConnContext(context.Background(), nc))
+			regErr = err
+			if err == nil {
+				for {
+					res, ok, timedOut := recvRes(w, ch)
+					if timedOut {
+						pending = true
+						break
+					}
+					if !ok {
+						break
+					}
+					results = append(results, res)
+				}
+			}
+			finished = true
+			sched.WaitIdle()
+			_ = w.eng.Stop(context.Background())
+		})
+	}
+	w.checks = append(w.checks, checkEnd, func(w *world, out *sched.Outcome) (string, string) {
+		if !finished || pending {
+			return fmt.Sprintf("Register of a connection whose peer had gone never delivered its result although the engine kept running (OnOpen's reply could not be written; end=%s blocked=%v)", out.End, out.Blocked), "ctl:Register:pending-failed-open"
+		}
+		if regErr != nil {
+			return "", ""
+		}
+		if len(results) != 1 {
+			return fmt.Sprintf("Register delivered %d results", len(results)), "ctl:Register:count"
+		}
+		if r := results[0]; (r.Conn == nil) == (r.Err == nil) {
+			return fmt.Sprintf("Register delivered Conn=%v Err=%v (want exactly one of them)", r.Conn != nil, r.Err), "ctl:Register:result"
+		}
+		for _, ci := range w.conns {
+			if ci.opens != 1 || ci.closes != 1 || len(ci.afterClose) > 0 {
+				return fmt.Sprintf("connection #%d: OnOpen %d times, OnClose %d times, after close: %v", ci.id, ci.opens, ci.closes, ci.afterClose), "ctl:Register:lifecycle"
+			}
+		}
+		if m, s := fdCheck(w, out); m != "" {
+			return m, s
+		}
+		return "", ""
+	})
+	return w
+}
+
 func ctlSchedConfigs() ([]sched.Config, func(string) *sched.Config) {
 	thorough := seqmc.Tier() == "thorough"
 	bounds := []sched.Bound{{PB: 0, DB: 0}, {PB: 0, DB: 1}, {PB: 1, DB: 0}, {PB: 0, DB: 2}, {PB: 1, DB: 1}}
@@ -720,6 +788,12 @@ func ctlSchedConfigs() ([]sched.Config, func(string) *sched.Config) {
 		name := fmt.Sprintf("enroll-fault/%s", map[bool]string{false: "LT", true: "ET"}[et])
 		out = append(out, sched.Config{Property: "C19", Name: name, Bounds: []sched.Bound{{PB: 0, DB: 0}, {PB: 0, DB: 1}, {PB: 1, DB: 1}}, Horizon: 40000, Deadline: seqmc.Deadline(), DelayBounded: true,
 			New: func() sched.Scenario { w := enrollFaultWorld(et2); w.name = name; return w }})
+	}
+	for _, et := range []bool{false, true} {
+		et := et
+		name := "enroll-dead-peer/" + map[bool]string{false: "LT", true: "ET"}[et]
+		out = append(out, sched.Config{Property: "C19", Name: name, Bounds: engineBounds(2, 3, 0), Horizon: 40000, Deadline: seqmc.Deadline(), DelayBounded: true,
+			New: func() sched.Scenario { w := enrollDeadPeerWorld(et); w.name = name; return w }})
 	}
 	out = append(out, fatalAcceptConfigs("C19")...)
 	return out, func(name string) *sched.Config {
